@@ -25,6 +25,17 @@ def pyLowerChar (c : Char) : Char :=
 def pyLower (s : String) : String := s.map pyLowerChar
 def lower (s : String) : String := pyLower s
 
+/-! named state writers (every write to the model state goes through one of these or the ones in
+    Interp/Bodies/Commands; the proofs have one lemma per writer) -/
+def setStatus (uid : Nat) (st : Status) : M Unit := modW uid fun w => { w with status := st }
+def setNp (uid : Nat) (n : Int) : M Unit := modW uid fun w => { w with np := n }
+def addPid (uid pid : Nat) : M Unit := modW uid fun w => { w with pids := w.pids ++ [pid] }
+def bumpHook (uid : Nat) (h : String) (i : Nat) : M Unit :=
+  modW uid fun w => { w with hookCalls := (h, i + 1) :: w.hookCalls.filter (·.1 ≠ h) }
+def setObjStopping (pid : Nat) (b : Bool) : M Unit := modO pid fun o => { o with stopping := b }
+def setRc (pid : Nat) (rc : Int) : M Unit := modO pid fun o => { o with rc := some rc }
+def markBlocked : M Unit := modS fun s => { s with blocked := true }
+
 /-- `Watcher.res_name` = name.lower().replace(" ", "_") -/
 def resName (name : String) : String := (lower name).map fun c => if c = ' ' then '_' else c
 
@@ -41,7 +52,7 @@ def callHook (uid : Nat) (hname : String) : M Bool := do
   | none => pure true
   | some spec =>
     let i := (w.hookCalls.lookup hname).getD 0
-    modW uid fun w => { w with hookCalls := (hname, i + 1) :: w.hookCalls.filter (·.1 ≠ hname) }
+    bumpHook uid hname i
     let o := spec.outs.getD (i % (if spec.outs.length = 0 then 1 else spec.outs.length)) "true"
     if o = "raise" then
       notify uid "hook_failure" none hname
@@ -79,8 +90,8 @@ def isAlive (pid : Nat) : M Bool := do
     let r ← kWaitpid (some pid)
     match r with
     | .none => pure true
-    | .echild => modO pid (fun o => { o with rc := some 0 }); pure false
-    | .got _ st => modO pid (fun o => { o with rc := some (exitCodeOf st) }); pure false
+    | .echild => setRc pid 0; pure false
+    | .got _ st => setRc pid (exitCodeOf st); pure false
 
 /-- `Process.stop`: terminate() if still alive (NoSuchProcess swallowed), close the pipes -/
 def objStop (pid : Nat) : M Unit := do
@@ -134,7 +145,7 @@ def popPid (uid pid : Nat) : M Unit := modW uid fun w => { w with pids := w.pids
 
 def setBlocked : M Unit := do
   emit .blocked
-  modS fun s => { s with blocked := true }
+  markBlocked
 
 /-- the `while status is None` loop of `reap_process` for the waitpid branch.
     Returns `none` for the ECHILD path, `some status` otherwise; `blocked` when it spins for ever. -/
